@@ -11,7 +11,7 @@ RUN_MODULE = "C09.Run"
 RUN_FN = "run_case"
 HARNESS_BIN = "c09"
 HARNESS_BINS = ["c09"]
-SHRINK_KEEP = ("hub", "end")
+SHRINK_KEEP = ("hub", "hub2", "end")
 RULE = ("cases: the real CommandHub runs in a thread with 0-3 fake workers registered over socketpairs and 1-3 scripted "
         "clients on the command socket; a case is a script of client requests (worker verbs accepted/refused by the "
         "state, queries, status, metrics, local verbs, unserved verbs, load-state of n requests, hard/soft stop), worker "
@@ -47,7 +47,13 @@ LEVEL_NOTE = ("Trusted: Coq kernel; extraction and ocaml/driver.ml for the corre
               "closes is counted as failed at once, deadline or not. A response that arrives in the same loop batch as the request "
               "that scattered it would be dropped (the task is still in queued_tasks): impossible for a real worker, the request is "
               "only flushed to it one loop iteration later; a client that pipelines two requests in one read has all but the last dropped "
-              "(responses carry no id, the protocol is one request at a time).")
+              "(responses carry no id, the protocol is one request at a time). Hot upgrade of the main process: the fork/exec itself is "
+              "not run; what is tied is the rest of UpgradeData (JSON round trip through the real serde types: fds, config, state, id "
+              "counters, workers, boot generation) and CommandHub::from_upgrade_data (the hub2 cases run every scenario against a hub "
+              "re-created that way; stopped workers are not taken over). Read, not run: UpgradeData carries no task, in-flight id, client "
+              "or event subscription, so a request pending at upgrade time is dropped (theorem upgrade_drops_pending, open finding "
+              "upgrade-drops-pending); upgrade_main goes on after a failed disable_cloexec_before_upgrade (finish_failure without return: "
+              "a second final answer would follow).")
 TECHNIQUE = "Rocq/Coq proof over an executable Gallina model + source translator (decision tables) + differential correspondence (extracted OCaml vs real CommandHub)"
 CLAIMED = True
 
@@ -353,6 +359,28 @@ def translate():
         fails.append("handle_client_request: unserved verbs are answered inconsistently (%r)" % ans)
     g.append("Definition unserved_answered : bool := %s." % ("true" if ans and all(ans) else "false"))
 
+    # 9. hot upgrade of the main process: what UpgradeData carries, what from_upgrade_data restores
+    up = strip_comments(open(os.path.join(vlib.REPO, "bin/src/command/upgrade.rs")).read())
+    ud = body_after(up, r"pub struct UpgradeData\s*\{", "UpgradeData", fails)
+    fields = re.findall(r"pub (\w+):", ud)
+    if sorted(fields) != sorted(["command_socket_fd", "config", "next_client_id", "next_session_id", "next_task_id", "next_worker_id", "workers", "state", "boot_generation"]):
+        fails.append("UpgradeData: its fields changed (%s): the hand-over model (C09/Model.v handover) carries state, counters and live workers, nothing else" % fields)
+    fu = body_after(srv, r"pub fn from_upgrade_data\(upgrade_data: UpgradeData\) -> Result<Self, HubError>\s*\{", "from_upgrade_data", fails)
+    for pat, what in ((r"server\.state = state;", "state"), (r"server\.next_task_id = next_task_id;", "next_task_id"),
+                      (r"server\.next_client_id = next_client_id;", "next_client_id"), (r"server\.next_session_id = next_session_id;", "next_session_id"),
+                      (r"server\.next_worker_id = next_worker_id;", "next_worker_id"), (r"server\.boot_generation = boot_generation;", "boot_generation"),
+                      (r"\.filter\(\|w\| w\.run_state != RunState::Stopped && w\.run_state != RunState::Stopping\)", "live workers only"),
+                      (r"clients: HashMap::new\(\),\s*tasks: HashMap::new\(\),", "no client, no task")):
+        if not re.search(pat, fu):
+            fails.append("from_upgrade_data: `%s` no longer recognised" % what)
+    gu = body_after(srv, r"pub fn generate_upgrade_data\(&self\) -> UpgradeData\s*\{", "generate_upgrade_data", fails)
+    for f in ("next_client_id", "next_session_id", "next_task_id", "next_worker_id", "boot_generation"):
+        if not re.search(r"%s: self\.%s," % (f, f), gu):
+            fails.append("generate_upgrade_data: %s is no longer carried over" % f)
+    um = body_after(up, r"pub fn upgrade_main\(server: &mut Server, client: &mut ClientSession\)\s*\{", "upgrade_main", fails)
+    if not re.search(r"if !received_ok_from_new_process \{\s*client\.finish_failure\([^;]*\);\s*\} else \{\s*client\.finish_ok\(.*?server\.run_state = ServerState::Stopping;", um, re.S):
+        fails.append("upgrade_main: the confirmation branch (failure | ok + Stopping) is no longer recognised")
+
     text = ("(* GENERATED by props/c09.py:translate from %s and %s — do not edit *)\n"
             "From Coq Require Import List Arith NArith Bool.\nFrom SV Require Import C09.Base.\n\n" % (SERVER, REQUESTS)) + "\n".join(g) + "\n"
     vlib.write_if_changed(os.path.join(vlib.COQ, "C09", "Gen.v"), text)
@@ -440,11 +468,19 @@ class Sim:
                 self.finish(t)
 
 
-def gen_case(rng, cid, allow_sleep, allow_stop):
+def gen_case(rng, cid, allow_sleep, allow_stop, handover=None):
     nw = rng.choice([0, 1, 2, 2, 2, 3, 3])
     nc = rng.choice([1, 2, 2, 3])
+    if handover is not None:
+        nw = 3
     s = Sim(rng, nw, nc)
-    s.ops.append(["hub", nw, 1, nc])
+    if handover is not None:
+        # the hub is the one from_upgrade_data re-creates; a worker stopped before is not part of it
+        s.ops.append(["hub2", nw, 1, nc, handover])
+        if handover >= 0:
+            s.closed.add(handover)
+    else:
+        s.ops.append(["hub", nw, 1, nc])
     nsleep = 0
     steps = rng.randint(4, 22)
     for _ in range(steps):
@@ -521,6 +557,9 @@ def silent_cases():
 def gen_cases(rng, tier):
     n, nslow = {"quick": (1500, 56), "thorough": (20000, 480), "search": (1200, 160)}.get(tier, (1500, 56))
     out = silent_cases()
+    # a hub re-created by from_upgrade_data from the serialised UpgradeData of another (one worker stopped, or none)
+    for i, sw in enumerate((-1, 0, 1, 2, -1, 1)):
+        out.append(gen_case(rng, "u%d" % i, i >= 4, i == 3, handover=sw))
     for i in range(n):
         out.append(gen_case(rng, "f%d" % i, False, i % 5 == 0))
     for i in range(nslow):
